@@ -3,13 +3,14 @@
 Monitor: content oracle (point -> non-default leaf value, extracted from the raw lists) on families of
 *representations of the same content* (differing by explicit defaults, empty / all-default sub-fibers,
 shapes, ownership, the Python type of the stored numbers, the leaf default) and their one-leaf neighbours;
-every ordered pair and sampled triples are compared.  Every tree is judged against ITS OWN leaf default; a leaf is
+every ordered pair and sampled triples are compared; operands may be LAZY fibers (given by an iterator over raw elements, or produced
+by project()), whose content is read from the element list they were built from.  Every tree is judged against ITS OWN leaf default; a leaf is
 default-valued when it is numerically equal to that default (0, 0.0 and False are the same value).
 """
 import copy
 import itertools
 
-from fibertree import Fiber, Payload, Tensor
+from fibertree import CoordPayload, Fiber, Payload, Tensor
 
 from fvmon import gen
 from fvmon.observe import content, unbox, snap
@@ -25,13 +26,20 @@ SPEC = {
              "(leaf numbers freely typed int / float / bool, some under another leaf default that no stored value "
              "equals) + one-leaf neighbours + trees with the SAME storage as a member but another leaf default "
              "(usually one of the stored values); all ordered pairs, triples, deepcopy, "
-             "isEmpty, countValues, nonEmpty.  Non-trivial = the family holds at least two structurally different "
+             "isEmpty, countValues, nonEmpty; (iii) LAZY operands of ==: in (ii) some members, and in (i) side a of a third "
+             "sweep (against every free eager tree, both orders), are lazy fibers whose top level is given by "
+             "Fiber.fromIterator over the raw elements (explicit defaults and empty sub-fibers included), or produced "
+             "by project() with a coordinate-reversing / an increasing trans_fn from the mirrored / shifted tree; "
+             "their content is read from the element list (spec), and each must also equal the eager fiber built from "
+             "the same elements.  Non-trivial = the family holds at least two structurally different "
              "trees with equal non-empty content, or a pair differing in exactly one leaf; distinct = distinct case."),
     "shards": {"quick": 16, "thorough": 16},
     "min_counts": {"quick": {"evaluations": 300, "eq_checked": 20000, "isempty_checked": 1000,
                              "count_checked": 1000, "nonempty_checked": 1000, "triples_checked": 300, "copy_checked": 1000, "cleared_checked": 300,
                              "mixed_default_pairs": 5000, "same_storage_other_default_pairs": 200,
-                             "retyped_default_trees": 300}},
+                             "retyped_default_trees": 300, "lazy_trees": 300,
+                             "lazy_trees_with_explicit_default": 100, "lazy_operand_pairs": 10000,
+                             "lazy_explicit_default_pairs": 4000, "lazy_lazy_pairs": 300}},
     "assumptions": [
         "both sides of a comparison have the same depth; their leaf defaults may differ (each tree's content is taken "
         "against its own default: the owning rank's for an owned tree, the construction default for a free one)",
@@ -39,6 +47,10 @@ SPEC = {
         "default-valued under default 0 and 1.0 is the same leaf value as 1",
         "tensors compared have identical rank ids (the statement is conditional on that)",
         "ordered/unique fibers",
+        "a lazy operand is lazy at its top level only (its sub-trees are eager, as for every lazy fiber the library "
+        "produces), carries a declared active range, and yields its elements in ascending coordinate order; isEmpty / "
+        "countValues / nonEmpty / deepcopy are not offered for lazy fibers (asserted by the library) and are not "
+        "judged on them; the content of a project() result is that of its source under the coordinate map",
     ],
 }
 
@@ -75,13 +87,13 @@ def _grid_trees(cells):
 
 
 def generate(rng, tier, shard, nshards, mon):
-    idx = 0
+    idx = 0     # round-robin over the selected cases, one kind of case after the other, so that every shard gets its share of each
     for g, (name, da, cells_a, db, cells_b) in enumerate(GRIDS):
         ntrees = len(_grid_trees(cells_a))
-        for i in range(ntrees):
-            for own in ("free", "tensor"):
-                if tier == "quick" and ((own == "tensor" and i % 3) or (g >= 2 and (i + g) % 2)):
-                    idx += 1
+        for own in ("free", "tensor", "lazy"):
+            for i in range(ntrees):
+                if tier == "quick" and ((own == "tensor" and i % 3) or (own == "lazy" and (i // 2) % 5 != g % 5)
+                                        or (g >= 2 and (i + g) % 2)):
                     continue
                 if idx % nshards == shard:
                     yield {"kind": "grid", "grid": g, "default": da, "i": i, "own": own}
@@ -169,6 +181,11 @@ def _family(rng):
         trees.append(trees[k])
         defs.append(rng.choice(pool))
     own = [rng.choice(["free", "tensor", "tensor-shape"]) for _ in trees]
+    # some members are LAZY fibers (top level given by an iterator / produced by project())
+    if rng.random() < 0.5:
+        for k in range(len(own)):
+            if rng.random() < 0.4:
+                own[k] = rng.choice(LAZY_KINDS)
     return {"kind": "family", "default": default, "defaults": defs, "depth": depth, "ext": ext, "trees": trees, "own": own}
 
 
@@ -186,9 +203,57 @@ def _variant(rng, cont, ext, default, dirty):
     return gen.spec_from_content({tuple(k): v for k, v in cont.items()}, depth, explicit, empties, default)
 
 
+LAZY_KINDS = ("lazy", "lazy-project-dec", "lazy-project-inc")
+
+
+def _lazy_kind(spec, own, default, depth):
+    """The lazy producer actually used for this tree."""
+    # (a coordinate-reversing project() of a leaf fiber with a non-zero default dropped its stored 0 leaves until
+    # repository fix 9593640: key eq:lazy-differs-from-eager-with-same-elements:lazy-project-dec)
+    return own
+
+
+def _lazy(spec, kind, default, salt=0):
+    """A LAZY fiber whose top level holds exactly the elements of `spec` (sub-trees are eager).
+
+    lazy              Fiber.fromIterator over the raw (coord, payload) elements - explicit defaults and empty
+                      sub-fibers included - of a fiber built by the public constructor
+    lazy-project-dec  src.project(c -> K - c) of the mirrored tree (the library walks the raw elements backwards)
+    lazy-project-inc  src.project(c -> c - s) of the shifted tree (the library walks its occupancy iterator)
+    """
+    top = max([c for c, _ in spec], default=0)
+    if kind == "lazy":
+        src = gen.fiber_from_spec(spec, default)
+        els = list(zip(src.coords, src.payloads))
+        if salt % 2:
+            els = [CoordPayload(c, p) for c, p in els]
+
+        class elements:
+            def __iter__(self):
+                return iter(els)
+
+        return Fiber.fromIterator(elements, default=default, active_range=(0, top + 1 + salt % 3))
+    if kind == "lazy-project-dec":
+        k = top + salt % 3
+        src = gen.fiber_from_spec([[k - c, p] for c, p in reversed(spec)], default)
+        return src.project(trans_fn=lambda c: k - c)
+    s = 1 + salt % 3
+    src = gen.fiber_from_spec([[c + s, p] for c, p in spec], default)
+    return src.project(trans_fn=lambda c: c - s)
+
+
+def _lazy_carries_empty(spec, kind, default):
+    """Does the lazy fiber's producer walk a raw top-level element that is empty under its default?"""
+    if kind == "lazy-project-inc":
+        return False
+    return any((gen.content_of_spec(p, default) == {}) if isinstance(p, list) else (p == default) for _, p in spec)
+
+
 def _build(spec, own, default, depth, ext=None, salt=0):
     if own == "free":
         return gen.fiber_from_spec(spec, default)
+    if own in LAZY_KINDS:
+        return _lazy(spec, _lazy_kind(spec, own, default, depth), default, salt)
     ids = gen.rank_ids_for(depth)
     shape = None
     if own == "tensor-shape" and ext:
@@ -276,6 +341,28 @@ def _unary(mon, x, default, tag):
     return c
 
 
+def _unary_lazy(mon, x, spec, kind, default):
+    """A lazy fiber: its content is that of the element list it was given (read from the spec, never through the
+    library's iterators).  isEmpty / countValues / nonEmpty / deepcopy are not offered for lazy fibers; == is."""
+    c = gen.content_of_spec(spec, default)
+    mon.count("lazy_trees")
+    if _lazy_carries_empty(spec, kind, default):
+        mon.count("lazy_trees_with_explicit_default")
+    e = _eq(mon, x, x, "x==x")
+    if e is not None:
+        mon.check(e, "eq:not-reflexive:lazy", "x != x for a lazy fiber")
+    # the eager fiber built from the very same elements
+    same = gen.fiber_from_spec(spec, default)
+    for a, b, what in ((x, same, "lazy==eager"), (same, x, "eager==lazy")):
+        e = _eq(mon, a, b, what)
+        if e is not None:
+            mon.count("eq_checked")
+            mon.check(e, f"eq:lazy-differs-from-eager-with-same-elements:{kind}",
+                      f"{what} is False for the {kind} fiber and the eager fiber holding the same elements {spec} "
+                      f"(default {default!r})")
+    return c
+
+
 def _retyped_default(spec, default):
     """Does the spec store a default-valued number whose Python type is not the default's type?"""
     return any(v == default and type(v) is not type(default) for v in _leaf_values(spec))
@@ -293,11 +380,38 @@ def run_case(case, mon):
         trees_a = _grid_trees(cells_a)
         trees_b = _grid_trees(cells_b)
         own = case["own"]
+        i = case["i"]
+        if own == "lazy":
+            # side a: tree i as a LAZY fiber (the three producers in turn); side b: every tree as a free eager fiber
+            lkind = _lazy_kind(trees_a[i], LAZY_KINDS[(i + i // 6) % 3], da, 2)
+            a = _build(trees_a[i], lkind, da, 2, salt=i // 3)
+            objs_b = [_build(t, "free", db, 2, salt=k) for k, t in enumerate(trees_b)]
+            conts_a = {i: _unary_lazy(mon, a, trees_a[i], lkind, da)}
+            conts_b = [content(o, db) for o in objs_b]
+            carries = _lazy_carries_empty(trees_a[i], lkind, da)
+            sfx = ":" + lkind + _pair_tag(da, db)
+            for j, b in enumerate(objs_b):
+                want = conts_a[i] == conts_b[j]
+                for x, y, d in ((a, b, "ab"), (b, a, "ba")):
+                    got = _eq(mon, x, y, "==")
+                    if got is None:
+                        continue
+                    mon.count("eq_checked")
+                    mon.count("lazy_operand_pairs")
+                    if carries:
+                        mon.count("lazy_explicit_default_pairs")
+                    kind = "equal-content-compares-unequal" if want else "different-content-compares-equal"
+                    mon.check(got == want, f"eq:{kind}{sfx}",
+                              f"{'lazy==eager' if d == 'ab' else 'eager==lazy'} is {got} but content equality is {want}: "
+                              f"lazy ({lkind}) elements {trees_a[i]} (default {da!r}), eager {trees_b[j]} (default {db!r})")
+            if conts_a[i]:
+                mon.nontrivial()
+            mon.state(("grid", name, i, own))
+            return
         objs_a = [_build(t, own, da, 2, salt=k) for k, t in enumerate(trees_a)]
         objs_b = [_build(t, own, db, 2, salt=k) for k, t in enumerate(trees_b)] if two_sided else objs_a
         conts_a = [content(o, da) for o in objs_a]
         conts_b = [content(o, db) for o in objs_b] if two_sided else conts_a
-        i = case["i"]
         a = objs_a[i]
         _unary(mon, a, da, own)
         if _retyped_default(trees_a[i], da):
@@ -331,8 +445,11 @@ def run_case(case, mon):
     depth = case["depth"]
     trees = case["trees"]
     defs = case.get("defaults") or [default] * len(trees)
+    lkinds = [_lazy_kind(t, o, d, depth) if o in LAZY_KINDS else None for t, o, d in zip(trees, case["own"], defs)]
     objs = [_build(t, o, d, depth, case.get("ext"), k) for k, (t, o, d) in enumerate(zip(trees, case["own"], defs))]
-    conts = [_unary(mon, o, d, "tensor" if isinstance(o, Tensor) else "free") for o, d in zip(objs, defs)]
+    conts = [_unary_lazy(mon, o, t, lk, d) if lk else _unary(mon, o, d, "tensor" if isinstance(o, Tensor) else "free")
+             for o, t, lk, d in zip(objs, trees, lkinds, defs)]
+    carries = [bool(lk) and _lazy_carries_empty(t, lk, d) for t, lk, d in zip(trees, lkinds, defs)]
     for t, d in zip(trees, defs):
         if _retyped_default(t, d):
             mon.count("retyped_default_trees")
@@ -354,9 +471,18 @@ def run_case(case, mon):
                 mon.count("mixed_default_pairs")
                 if trees[i] == trees[j] and not want:
                     mon.count("same_storage_other_default_pairs")
+            how = ""
+            if lkinds[i] or lkinds[j]:
+                mon.count("lazy_operand_pairs")
+                if lkinds[i] and lkinds[j]:
+                    mon.count("lazy_lazy_pairs")
+                if carries[i] or carries[j]:
+                    mon.count("lazy_explicit_default_pairs")
+                sfx = ":lazy" + sfx
+                how = f" [{lkinds[i] or 'eager'} == {lkinds[j] or 'eager'}]"
             kind = "equal-content-compares-unequal" if want else "different-content-compares-equal"
             mon.check(got == want, f"eq:{kind}:depth{depth if depth < 3 else 3}{sfx}",
-                      f"trees {trees[i]} (default {defs[i]!r}) and {trees[j]} (default {defs[j]!r}): "
+                      f"trees {trees[i]} (default {defs[i]!r}) and {trees[j]} (default {defs[j]!r}){how}: "
                       f"== gives {got}, content equality {want}")
     for i in range(n):
         for j in range(n):
